@@ -17,6 +17,10 @@ import (
 // the first span, AddSpan, root bookkeeping) on a worker whose loop is not running.
 func VerifSamplerselProcess(w *CollectorWorker, sp *types.Span) { w.processSpan(context.Background(), sp) }
 
+// VerifSamplerselReloadWorker is the reload branch of the worker's collect loop: the cached samplers
+// are dropped so that they are rebuilt from the configuration now in force.
+func VerifSamplerselReloadWorker(w *CollectorWorker) { clear(w.datasetSamplers) }
+
 // VerifSamplerselDecision is what makeDecision answered for a buffered trace.
 type VerifSamplerselDecision struct {
 	Found     bool
